@@ -14,11 +14,12 @@ func init() { register("C14", propC14) }
 func v(n string) aff { return affVar(n) }
 
 func propC14(c *Ctx) {
-	c.Explanation = "Decides, for ALL 32-bit operands, that each primitive of pkg/seqnum computes the serial-number-arithmetic definition in the property: every function body is abstractly evaluated (loop-free path enumeration, affine terms mod 2^32, signed tests rewritten to unsigned intervals, callees substituted) into a predicate normal form which is compared exactly - over the finite partition induced by the interval end points - with the definition written in the same normal form; a mismatch is reported with the interval of distances on which code and definition differ. Additionally a type-resolved lint shows that the TCP/stack/header packages never order seqnum.Value operands with raw < <= > >= (so all ordering goes through the decided primitives) and that the out-of-order heap orders by LessThan. S2 also flags a seqnum.Value converted to any plain integer type and then ordered. (S4) sequence-typed sender/receiver state is initialised from iss/irs. NOT decided: the consequence clause (that every TCP property holds at wrap-adjacent initial sequence numbers) beyond this necessary condition; Overlap is decided against its definition-by-composition, which coincides with 'the windows share a sequence number' only for window sizes < 2^31 (pen-and-paper lemma, see DESIGN.md)."
+	c.Explanation = "Decides, for ALL 32-bit operands, that each primitive of pkg/seqnum computes the serial-number-arithmetic definition in the property: every function body is abstractly evaluated (loop-free path enumeration, affine terms mod 2^32, signed tests rewritten to unsigned intervals, callees substituted) into a predicate normal form which is compared exactly - over the finite partition induced by the interval end points - with the definition written in the same normal form; a mismatch is reported with the interval of distances on which code and definition differ. Additionally a type-resolved lint shows that the TCP/stack/header packages never order seqnum.Value operands with raw < <= > >= (so all ordering goes through the decided primitives) and that the out-of-order heap orders by LessThan. S2 also flags a seqnum.Value converted to any plain integer type and then ordered. (S4) sequence-typed sender/receiver state is initialised from iss/irs. (S5) every conversion into the 32-bit sequence space, and every other narrowing conversion of packages tcp and seqnum, is in the reviewed table (closed world). NOT decided: the consequence clause (that every TCP property holds at wrap-adjacent initial sequence numbers) beyond this necessary condition; Overlap is decided against its definition-by-composition, which coincides with 'the windows share a sequence number' only for window sizes < 2^31 (pen-and-paper lemma, see DESIGN.md)."
 	c.Assumptions = []string{
 		"Go semantics of uint32/int32 arithmetic and conversions as modelled by the affine32 evaluator",
 		"Overlap's definition-by-composition equals window intersection for sizes < 2^31 (TCP windows are <= 2^30)",
 	}
+	c.NoNewNarrowing(c.Rule("S5", "K8 narrowing (closed world, reviewed table)", "every conversion into the 32-bit sequence space (and every other narrowing in packages tcp and seqnum) is a reviewed one: lengths and buffer sizes far below 2^31, shifts, timestamps", 12), []string{"/transport/tcp", "/pkg/seqnum"}, narrowTCP)
 	S1 := c.Rule("S1", "K9/affine32", "seqnum primitive == serial-number definition for all operands", 8)
 	seqnumPrimitives(c, S1, nil)
 	S2 := c.Rule("S2", "lint", "no raw ordering comparison / widening of seqnum.Value in tcp, header, stack", 1)
